@@ -22,6 +22,9 @@ pub enum Ending {
     Shutdown,
     DropLast,
     CloneDropContinue,
+    /// two threads call shutdown() on clones at the same time; each reads the output as soon as
+    /// its own call has returned
+    ConcurrentShutdown,
 }
 
 #[derive(Clone, Copy, Debug, PartialEq, Eq)]
@@ -94,6 +97,7 @@ pub fn run_case(ctx: &mut CaseCtx) -> CaseResult {
         0..=1 => Ending::Shutdown,
         2..=3 => Ending::Shutdown,
         4..=5 => Ending::DropLast,
+        6 if out != Out::Writer => Ending::ConcurrentShutdown,
         _ => Ending::CloneDropContinue,
     };
     let cap = match wmode {
@@ -380,6 +384,51 @@ pub fn run_case(ctx: &mut CaseCtx) -> CaseResult {
                 "after clone-drop, further records, then shutdown()",
                 "",
             );
+        }
+        Ending::ConcurrentShutdown => {
+            let mut exp_main = next.clone();
+            for e in exp_main.iter_mut().skip(threads) {
+                *e = 0;
+            }
+            let barrier = Arc::new(std::sync::Barrier::new(2));
+            let mut joins = Vec::new();
+            for _ in 0..2 {
+                let h = handle.as_ref().unwrap().clone();
+                let b = Arc::clone(&barrier);
+                let names = cfg.names.clone();
+                let exp = exp_main.clone();
+                joins.push(std::thread::spawn(move || {
+                    b.wait();
+                    h.shutdown();
+                    // whoever comes back from shutdown() may rely on the output being complete
+                    let content = match family::observe(&names).map(|o| o.stream()) {
+                        Ok(Ok(c)) => c,
+                        Ok(Err(e)) => return (h, Err(("unreadable".to_string(), e))),
+                        Err(_) => Vec::new(),
+                    };
+                    let r = check_stream(&content, run, &exp, b"\n").map(|rep| rep.lines);
+                    (h, r)
+                }));
+            }
+            let mut kept = Vec::new();
+            for (i, j) in joins.into_iter().enumerate() {
+                match j.join() {
+                    Ok((h, r)) => {
+                        kept.push(h);
+                        res.count("immediate_reads", 1);
+                        match r {
+                            Ok(lines) => res.count("lines_checked", lines),
+                            Err((kind, detail)) => res.violate(
+                                "record-left-behind",
+                                format!("C04/{kind}/{facts}/concurrent-shutdown"),
+                                format!("thread {i} of two that called shutdown() at the same time, right after its call returned: {detail}"),
+                            ),
+                        }
+                    }
+                    Err(_) => res.inconclusive("a shutdown thread panicked"),
+                }
+            }
+            drop(kept);
         }
     }
     drop(handle);
@@ -674,7 +723,7 @@ pub fn child_main(a: &ChildArgs) -> i32 {
             // exit without any further orderly shutdown of the logger: forget the handle
             std::mem::forget(handle.take());
         }
-        Ending::Shutdown => handle.as_ref().unwrap().shutdown(),
+        Ending::Shutdown | Ending::ConcurrentShutdown => handle.as_ref().unwrap().shutdown(),
         Ending::DropLast => drop(handle.take()),
         Ending::CloneDropContinue => {
             let c = handle.as_ref().unwrap().clone();
